@@ -96,6 +96,20 @@ Matches(d, f) ==
                                 /\ d.w = f.w
     ELSE d = f
 
+\* The load direction is stricter than Matches in one respect: an integer token that fits the integer type of
+\* the object model (i64) denotes an integer object - "yields exactly the objects".  Only a token beyond that
+\* range may come back as the real of the same value (Matches' integral-real rule).  IntKept(d, f), for values
+\* with Matches(d, f): no such token was loaded as a real.
+I64Max == <<9, 2, 2, 3, 3, 7, 2, 0, 3, 6, 8, 5, 4, 7, 7, 5, 8, 0, 7>>
+FitsI64(f) == DecLE([ip |-> f.v, fp |-> <<>>], [ip |-> IF f.neg THEN [I64Max EXCEPT ![19] = 8] ELSE I64Max, fp |-> <<>>])
+RECURSIVE IntKept(_, _)
+IntKept(d, f) ==
+    IF d.k = "real" THEN ~(f.k = "int" /\ FitsI64(f))
+    ELSE IF d.k # f.k THEN TRUE
+    ELSE IF d.k = "arr" THEN Len(d.v) # Len(f.v) \/ \A i \in 1..Len(d.v) : IntKept(d.v[i], f.v[i])
+    ELSE IF d.k \in {"dict", "stream"} THEN DOMAIN d.v # DOMAIN f.v \/ \A key \in DOMAIN d.v : IntKept(d.v[key], f.v[key])
+    ELSE TRUE
+
 \* dictionaries compared on a subset of keys only (cross-reference bookkeeping ignored)
 MatchesDictExcept(dd, fd, ignore) ==
     /\ DOMAIN dd \ ignore = DOMAIN fd \ ignore
